@@ -21,7 +21,7 @@ from ..common import workdir, rm_workdir, seed, MachineryError, REPO
 
 def scoped_flags(wd, name, templates, mversion=33):
     consts = {'Progs': tlc.tla_val([list(t) for t in templates]), 'CacheMax': '0', 'Keys': '{}', 'MaxOps': '0',
-              'TableDirs': tlc.tla_val(fm94.table_dirs(mversion))}
+              'TableDirs': tlc.tla_val(fm94.table_dirs(mversion)), 'ExtraB': '<<>>', 'ExtraD': '<<>>'}
     text = tlc.mc_module(name, ['Compiler'], consts)
     res = tlc.run(wd, name, tlc.mc_cfg(consts, invariants=['EmitScoped']), text, coverage=False, lazy_emitted=True, timeout=3000)
     tlc.require_ok(res, name)
@@ -207,7 +207,7 @@ def run(run):
         hists = set()
         for cmax in (0, 1, 2):
             consts = {'Progs': '<<>>', 'CacheMax': str(cmax), 'Keys': '{1, 2, 3, 4, 5}' if thorough else '{1, 2, 3, 4}', 'MaxOps': '5' if thorough else '4',
-                      'TableDirs': tlc.tla_val(fm94.table_dirs(33))}
+                      'TableDirs': tlc.tla_val(fm94.table_dirs(33)), 'ExtraB': '<<>>', 'ExtraD': '<<>>'}
             name = 'MC_cache_%d' % cmax
             text = tlc.mc_module(name, ['Compiler'], consts)
             res = tlc.run(wd, name, tlc.mc_cfg(consts, invariants=['SizeBounded', 'HitOnlyAfterMiss', 'EmitHistory']), text, coverage=False, lazy_emitted=True)
